@@ -2,7 +2,7 @@
 //! (hashbrown's SipHash + SIMD group probing is out of CBMC's reach: a 4-operation history on the real HashMap did
 //! not finish in 20 min).  Compiled only under cfg(kani) in the overlay; `lru_index.rs` imports `HashMap` from here
 //! instead of `std::collections` under cfg(kani).  (The `entry` API was added for a VectorCache history harness that
-//! did not fit in memory — 3 operations at capacity 2 needed > 13 GB because of the heap-backed `CachedVector` — and is unused.)
+//! did not fit in memory — 3 operations at capacity 2 needed > 13 GB because of the heap-backed `CachedVector` — and is now used by the merge_knn_results harness (C06 O6.5).)
 //!
 //! Contract (part of every claim that uses it): a finite map with at most CAP entries — `insert` overwrites or adds,
 //! `remove` deletes, `get`/`get_mut`/`contains_key` look up by key equality, `len` counts entries.  Iteration order,
@@ -48,6 +48,55 @@ impl<'a, K: Eq + Copy, V> OccupiedEntry<'a, K, V> {
             Some((_, v)) => v,
             None => panic!("verif_map: occupied entry without a slot"),
         }
+    }
+}
+
+impl<'a, K: Eq + Copy, V> Entry<'a, K, V> {
+    /// std semantics: the existing value if the key is present, otherwise `v` is inserted.
+    pub fn or_insert(self, v: V) -> &'a mut V {
+        match self {
+            Entry::Occupied(o) => match &mut o.map.slots[o.slot] {
+                Some((_, x)) => x,
+                None => panic!("verif_map: occupied entry without a slot"),
+            },
+            Entry::Vacant(va) => {
+                let k = va.key;
+                let m = va.map;
+                let _ = m.insert(k, v);
+                match m.get_mut(&k) {
+                    Some(x) => x,
+                    None => panic!("verif_map: value just inserted is missing"),
+                }
+            }
+        }
+    }
+}
+
+/// By-value iteration in slot order (std's order is unspecified; callers must not depend on it).
+pub struct IntoIter<K, V> {
+    slots: [Option<(K, V)>; CAP],
+    i: usize,
+}
+
+impl<K, V> Iterator for IntoIter<K, V> {
+    type Item = (K, V);
+    fn next(&mut self) -> Option<(K, V)> {
+        while self.i < CAP {
+            let j = self.i;
+            self.i += 1;
+            if let Some(kv) = self.slots[j].take() {
+                return Some(kv);
+            }
+        }
+        None
+    }
+}
+
+impl<K, V> IntoIterator for HashMap<K, V> {
+    type Item = (K, V);
+    type IntoIter = IntoIter<K, V>;
+    fn into_iter(self) -> IntoIter<K, V> {
+        IntoIter { slots: self.slots, i: 0 }
     }
 }
 
